@@ -347,6 +347,7 @@ pub fn run(e: &'static Engine) {
          decoded values, every forced option, and level Q when no level was given. Non-trivial: distinct (level, mask, version, \
          forced-set) tuples.",
     );
+    e.extend_rule("all statements are also checked on the Clone copies; the first mode indicator must exist (also for the empty input) and be the reported mode whatever follows; wasm entry points; extreme textures.");
     e.assume("BCH generator polynomials 0x537 / 0x1F25 and the mask 0x5412 as in ISO/IEC 18004 Annex C/D (checked against the Annex examples in refmodel tests)");
     crate::engine::run_regress(e, &|c, o| replay(e, c, o));
     let mut jobs: Vec<Job> = Vec::new();
